@@ -443,6 +443,7 @@ impl RLBuilder {
         if len > self.len() {
             self.flush();
             self.len = len;
+            self.run = (len, 0);
         }
     }
 
